@@ -3472,6 +3472,10 @@ static EbErrorType copy_frame_buffer(
         uint16_t     luma_stride = input_picture_ptr->stride_y << is_16bit_input;
         uint16_t     chroma_stride = input_picture_ptr->stride_cb << is_16bit_input;
         uint16_t     luma_height = (uint16_t)(input_picture_ptr->height - scs_ptr->max_input_pad_bottom);
+        // only the visible samples of a row belong to the caller's picture, the stride may be larger
+        uint16_t     luma_width = (uint16_t)(input_picture_ptr->width - scs_ptr->max_input_pad_right);
+        uint16_t     chroma_width = (uint16_t)((luma_width + (input_picture_ptr->color_format != EB_YUV444)) >>
+                                               (input_picture_ptr->color_format != EB_YUV444));
 
         uint16_t     source_luma_stride = (uint16_t)(input_ptr->y_stride);
         uint16_t     source_cr_stride = (uint16_t)(input_ptr->cr_stride);
@@ -3482,7 +3486,7 @@ static EbErrorType copy_frame_buffer(
         src = input_ptr->luma;
         dst = input_picture_ptr->buffer_y + luma_buffer_offset;
         for (unsigned i = 0; i < luma_height; i++) {
-            svt_memcpy(dst, src, source_luma_stride);
+            svt_memcpy(dst, src, luma_width);
             src += source_luma_stride;
             dst += luma_stride;
         }
@@ -3490,7 +3494,7 @@ static EbErrorType copy_frame_buffer(
         src = input_ptr->cb;
         dst = input_picture_ptr->buffer_cb + chroma_buffer_offset;
         for (unsigned i = 0; i < source_chroma_height; i++) {
-            svt_memcpy(dst, src, source_cb_stride);
+            svt_memcpy(dst, src, chroma_width);
             src += source_cb_stride;
             dst += chroma_stride;
         }
@@ -3498,7 +3502,7 @@ static EbErrorType copy_frame_buffer(
         src = input_ptr->cr;
         dst = input_picture_ptr->buffer_cr + chroma_buffer_offset;
         for (unsigned i = 0; i < source_chroma_height; i++) {
-            svt_memcpy(dst, src, source_cr_stride);
+            svt_memcpy(dst, src, chroma_width);
             src += source_cr_stride;
             dst += chroma_stride;
         }
